@@ -41,7 +41,9 @@ impl IrValue {
             }
 
             BigUint(big) => {
-                let bytes = big.to_bytes_le();
+                // `to_bytes_le` represents zero with one byte, but zero fits in any number
+                // of bytes (including none), as in-circuit.
+                let bytes = if big.bits() == 0 { vec![] } else { big.to_bytes_le() };
                 if bytes.len() > n {
                     Err(Error::Other(format!("cannot convert {big} to Bytes({n})")))
                 } else {
